@@ -6,6 +6,6 @@ import common as C
 if '--gen' in sys.argv:
     ok, idx, log = C.regenerate(); print(log.strip().split('\n')[0])
 tg = [a for a in sys.argv[1:] if not a.startswith('--')]
-ok, log, dt = C.make(tg, jobs=16)
+ok, log, dt = C.make(tg, timeout=int(os.environ.get("MK_TIMEOUT", "240")), jobs=16)
 lines = [l for l in log.split('\n') if not l.startswith('COQ') and 'Closed under' not in l and l.strip()]
 print('\n'.join(lines[:40])); print('make', 'ok' if ok else 'FAILED', f'{dt:.0f}s')
